@@ -7,6 +7,140 @@
 /// Facade: the session cache type.
 pub use crate::lru_time_cache::LruTimeCache;
 
+/// Facade over the iterative query state machines (`FindNodeQuery` / `PredicateQuery`), driven
+/// with explicit time (`at` = time since the facade was created).
+pub struct QueryFacade {
+    inner: QueryInner,
+    base: std::time::Instant,
+}
+
+enum QueryInner {
+    FindNode(crate::query_pool::FindNodeQuery<enr::NodeId>),
+    Predicate(crate::query_pool::PredicateQuery<enr::NodeId, VerifResult>),
+}
+
+/// The result type of the predicate variant: a node id and whether its record matches.
+#[derive(Clone, Debug)]
+pub struct VerifResult {
+    pub id: enr::NodeId,
+    pub matches: bool,
+}
+
+impl From<VerifResult> for enr::NodeId {
+    fn from(r: VerifResult) -> Self {
+        r.id
+    }
+}
+
+impl From<&VerifResult> for enr::NodeId {
+    fn from(r: &VerifResult) -> Self {
+        r.id
+    }
+}
+
+/// What `next` returned.
+#[derive(Debug, Clone, PartialEq, Eq)]
+pub enum QueryNext {
+    Contact(enr::NodeId),
+    Waiting,
+    WaitingAtCapacity,
+    Finished,
+}
+
+impl QueryFacade {
+    pub fn new(
+        predicate: bool,
+        parallelism: usize,
+        num_results: usize,
+        peer_timeout: std::time::Duration,
+        target: enr::NodeId,
+        peers: Vec<(enr::NodeId, bool)>,
+    ) -> Self {
+        use crate::kbucket::{Key, PredicateKey};
+        let inner = if predicate {
+            QueryInner::Predicate(crate::query_pool::PredicateQuery::with_config(
+                crate::query_pool::PredicateQueryConfig {
+                    parallelism,
+                    num_results,
+                    peer_timeout,
+                },
+                Key::from(target),
+                peers.into_iter().map(|(id, m)| PredicateKey {
+                    key: Key::from(id),
+                    predicate_match: m,
+                }),
+                |r: &VerifResult| r.matches,
+            ))
+        } else {
+            QueryInner::FindNode(crate::query_pool::FindNodeQuery::with_config(
+                crate::query_pool::FindNodeQueryConfig {
+                    parallelism,
+                    num_results,
+                    peer_timeout,
+                },
+                Key::from(target),
+                peers.into_iter().map(|(id, _)| Key::from(id)),
+            ))
+        };
+        QueryFacade {
+            inner,
+            base: std::time::Instant::now(),
+        }
+    }
+
+    pub fn next(&mut self, at: std::time::Duration) -> QueryNext {
+        use crate::query_pool::QueryState;
+        let now = self.base + at;
+        let state = match &mut self.inner {
+            QueryInner::FindNode(q) => q.next(now),
+            QueryInner::Predicate(q) => q.next(now),
+        };
+        match state {
+            QueryState::Waiting(Some(p)) => QueryNext::Contact(p),
+            QueryState::Waiting(None) => QueryNext::Waiting,
+            QueryState::WaitingAtCapacity => QueryNext::WaitingAtCapacity,
+            QueryState::Finished => QueryNext::Finished,
+        }
+    }
+
+    pub fn on_success(&mut self, peer: &enr::NodeId, new_peers: Vec<(enr::NodeId, bool)>) {
+        match &mut self.inner {
+            QueryInner::FindNode(q) => {
+                q.on_success(peer, new_peers.into_iter().map(|(id, _)| id).collect())
+            }
+            QueryInner::Predicate(q) => {
+                let results: Vec<VerifResult> = new_peers
+                    .into_iter()
+                    .map(|(id, matches)| VerifResult { id, matches })
+                    .collect();
+                q.on_success(peer, &results)
+            }
+        }
+    }
+
+    pub fn on_failure(&mut self, peer: &enr::NodeId) {
+        match &mut self.inner {
+            QueryInner::FindNode(q) => q.on_failure(peer),
+            QueryInner::Predicate(q) => q.on_failure(peer),
+        }
+    }
+
+    pub fn into_result(self) -> Vec<enr::NodeId> {
+        match self.inner {
+            QueryInner::FindNode(q) => q.into_result(),
+            QueryInner::Predicate(q) => q.into_result(),
+        }
+    }
+
+    /// (progress, num_waiting, [(peer, state)] in distance order)
+    pub fn state(&self) -> (&'static str, usize, Vec<(enr::NodeId, &'static str)>) {
+        match &self.inner {
+            QueryInner::FindNode(q) => q.verif_state(),
+            QueryInner::Predicate(q) => q.verif_state(),
+        }
+    }
+}
+
 /// The IP-diversity filters used for the routing table when `ip_limit` is configured.
 pub fn ip_filters() -> (
     Box<dyn crate::kbucket::filter::Filter<crate::Enr>>,
